@@ -43,12 +43,35 @@ fn challenges<CS: Suite>(w: &World<CS>, it: &Item) -> Vec<(String, Integer)> whe
     out
 }
 
+const T_PARAM: u32 = 128; const L_PARAM: u32 = 40;
+/// Attacker-side use of a Boudot range proof: floor(d / challenge) of a proof of square approximates x_{a,1} = floor(sqrt(2^T x - aa))
+/// (resp. x_{b,1} = floor(sqrt(bb - 2^T x))), from which x follows by public arithmetic. Returns (which, estimate of x).
+fn boudot_estimates(rp: &Value, a: &Integer, b: &Integer) -> Vec<(String, Integer)> {
+    let mut out = Vec::new();
+    let big_t = 2 * (T_PARAM + L_PARAM + 1) + (b - a).complete().significant_bits();
+    let sq = Integer::from((b - a).complete().sqrt_ref());
+    let aa = pow2(big_t) * a - pow2(L_PARAM + T_PARAM + big_t / 2 + 1) * &sq;
+    let bb = pow2(big_t) * b + pow2(L_PARAM + T_PARAM + big_t / 2 + 1) * &sq;
+    for side in ["a", "b"] {
+        let ss = &rp["proof_of_tolerance"][format!("proof_of_square_{}", side)]["proof_ss"];
+        let (d, c) = match (leaf_int(&ss["d"]), leaf_int(&ss["challenge"])) { (Some(d), Some(c)) if c > 0 => (d, c), _ => continue };
+        for cc in [c.clone(), c.clone() % pow2(T_PARAM)] {
+            if cc <= 0 { continue; }
+            let x1 = Integer::from(&d / &cc);
+            let xs = x1.clone() * &x1;
+            let xprime = if side == "a" { xs + &aa } else { bb.clone() - xs };
+            out.push((format!("proof_of_square_{}: floor(d/c)^2 via public offsets", side), xprime >> big_t));
+        }
+    }
+    out
+}
+
 pub fn run<CS: Suite>(env: &Env)
 where CL03<CS>: Scheme<PubKey = CL03PublicKey, PrivKey = CL03SecretKey>, CS::HashAlg: sha2::Digest {
     let maxn = if env.thorough() { 4 } else { 3 };
     let w: World<CS> = World::generate(maxn);
     let items = collect::<CS>(env, &w, maxn, "c19");
-    env.ctx.set_rule("every honest issuance proof (all non-empty hidden subsets) and signature proof (all subsets), n <= 3 (thorough 4). S = all integer leaves of the serialized proof; Cset = every Fiat-Shamir challenge a recipient can recompute (explicit challenge / C fields, C mod 2^t, and the hashes the verifier recomputes from public data); X = every secret the prover holds that the harness knows (hidden m_i, e, s, v, commitment randomness r, and any randomness leaf that is present in the proof). For EVERY (s, c, x) in S x Cset x X and EVERY ordered pair (s, s') in S^2: |floor(s/c) - x| >= 2^64 and |floor(s/s') - x| >= 2^64. Additionally floor(s/c) + d, d in -2..=2, is tested as an opening exponent of every embedded commitment. State = (proof, leaf); non-trivial = a quotient was computed against a prover secret.");
+    env.ctx.set_rule("every honest issuance proof (all non-empty hidden subsets) and signature proof (all subsets), n <= 3 (thorough 4). S = all integer leaves of the serialized proof; Cset = every Fiat-Shamir challenge a recipient can recompute (explicit challenge / C fields, C mod 2^t, and the hashes the verifier recomputes from public data); X = every secret the prover holds that the harness knows (hidden m_i, e, s, v, commitment randomness r, and any randomness leaf that is present in the proof). For EVERY (s, c, x) in S x Cset x X and EVERY ordered pair (s, s') in S^2: |floor(s/c) - x| >= 2^64 and |floor(s/s') - x| >= 2^64. Additionally every embedded Boudot range proof is attacked through its proofs of square: floor(d / challenge)^2 plus the public offset, shifted by 2^T, must not land within 2^64 of the secret the range proof is about (hidden m_i, e, r). State = (proof, leaf); non-trivial = a quotient was computed against a prover secret.");
     let bound = pow2(64);
     par_for(&items, |_, it| {
         if !env.want(&it.id) || env.ctx.out_of_time() { return; }
@@ -82,6 +105,20 @@ where CL03<CS>: Scheme<PubKey = CL03PublicKey, PrivKey = CL03SecretKey>, CS::Has
             }
             env.ctx.class(if p.last().map(|l| l.starts_with('s') || l.starts_with('d') || l.starts_with('D')).unwrap_or(false) { "response leaf" } else { "other leaf" });
             env.ctx.trace();
+        }
+        // derived secrets: every embedded range proof, attacked through its proofs of square
+        let root = &it.proof["CL03"];
+        let secret = |name: &str| it.secrets.iter().find(|s| s.0 == name).map(|s| s.1.clone());
+        let mut rps: Vec<(String, &Value, Integer, Integer, Option<Integer>)> = Vec::new();
+        if root["range_proof_e"].is_object() { rps.push(("range_proof_e".into(), &root["range_proof_e"], pow2(CS::le - 1) + 1u32, pow2(CS::le) - 1u32, secret("signature e"))); }
+        if root["range_proof_r"].is_object() { rps.push(("range_proof_r".into(), &root["range_proof_r"], Integer::from(0), pow2(CS::ln) - 1u32, secret("commitment randomness r"))); }
+        for key in ["range_proofs_commited_mi", "range_proofs_mi"] { if let Some(arr) = root[key].as_array() { for (k, rp) in arr.iter().enumerate() { let i = it.hidden.get(k).copied().unwrap_or(0); rps.push((format!("{}[{}]", key, k), rp, Integer::from(0), pow2(CS::lm) - 1u32, Some(it.m[i].clone()))); } } }
+        for (name, rp, lo, hi, sec) in &rps {
+            env.ctx.state(&[it.id.as_bytes(), name.as_bytes()]);
+            if let Some(x) = sec { for (how, est) in boudot_estimates(rp, lo, hi) { env.ctx.step();
+                if close(&est, x) { env.ctx.violation(&format!("C19:range-proof-response-reveals-secret:{}", name.split('[').next().unwrap_or(name)), &format!("{} / {}: the committed secret follows from a response divided by its challenge (estimate - secret = {})", name, how, (&est - x).complete()), env.case(&it.id, json!({"base": det0, "range_proof": name, "how": how}))); }
+            } }
+            env.ctx.class("range proof (derived secret)"); env.ctx.trace();
         }
         env.ctx.add_extra("challenges_recomputed", cs.len() as u64);
         if it.n == 2 && it.hidden == vec![1] { env.ctx.sample(json!({"proof": it.id, "leaves": vals.len(), "challenges": cs.iter().map(|c| c.0.clone()).collect::<Vec<_>>(), "secrets": secrets.iter().map(|s| s.0.clone()).collect::<Vec<_>>()})); }
